@@ -30,6 +30,10 @@ TRUSTED = [
     "of x, multinomial(1,w) one-hot of length len(w) — each is evaluated on the recorded draws in Coq (Check.draws_okb)",
     "einops.rearrange '(s w) -> (w s)' is out[w*S+s] = in[s*W+w]; np.argsort of a permutation is its inverse; "
     "iteration order of the python set SemiWrapper.semi_idxs is irrelevant (all writes store -1)",
+    "'wrapped data other than the label is untouched' and 'the wrapped dataset's own labels are unchanged after every "
+    "accessor call' are checked on the real objects (getitem_x / getall_x pass-through, labels re-read after the "
+    "constructor and each accessor) by the Python oracle and Check.check (code 5); there is no Coq theorem for them "
+    "(the model is pure)",
     "label smoothing / one-hot theorems are over Q; the float32 results are compared with the rational model within 1e-6",
 ]
 ASSUMPTIONS = [
@@ -176,7 +180,7 @@ def gen_cases(rng, tier):
         out = [gen_case(rng, kind=k) for k in KINDS for _ in range(12)]
         out += [gen_case(rng) for _ in range(900)]
     else:
-        out = [gen_case(rng) for _ in range(5000)] + [gen_case(rng, big=True) for _ in range(1800)]
+        out = [gen_case(rng) for _ in range(10000)] + [gen_case(rng, big=True) for _ in range(4000)]
     return out
 
 
@@ -638,6 +642,38 @@ def oracle(case, obs):
         if obs["rebuild_items"] != items or obs["rebuild_bulk"] != bulk:
             return f"a second wrapper built from the same arguments gives other labels: {obs['rebuild_items']} vs {items}"
     # wrapper-specific direct statements
+    if k == "class_groups" and in_domain(case, wrapped):
+        cpg = case["cpg"]
+        seen = {}
+        for i, (c, y) in enumerate(zip(wrapped, items)):
+            occ = seen.setdefault(c, [])
+            if occ and occ[0] // cpg != y // cpg:
+                return f"class {c} is mapped into two different groups ({occ[0] // cpg} and {y // cpg})"
+            if y % cpg != len(occ) % cpg:
+                return f"sample {i}: occurrence {len(occ)} of class {c} should take slot {len(occ) % cpg} of its group, got {y % cpg}"
+            occ.append(y)
+        groups = {}
+        for c, occ in seen.items():
+            groups.setdefault(occ[0] // cpg, set()).add(c)
+        if any(len(v) > cpg for v in groups.values()):
+            return f"a group received more than {cpg} classes: {groups}"
+    if k == "superclass" and in_domain(case, wrapped):
+        og = -(-case["C"] // case["cps"])
+        if shape != og * case["splits"]:
+            return f"getshape_class {shape} != ceil(C/k)*splits = {og * case['splits']}"
+        by_cls = {}
+        for c, y in zip(wrapped, items):
+            by_cls.setdefault(c, []).append(y)
+        sup = {}
+        for c, ys in by_cls.items():
+            if len({y % og for y in ys}) != 1:
+                return f"class {c} is mapped into several superclasses: {sorted(set(ys))}"
+            sup.setdefault(ys[0] % og, set()).add(c)
+            cnt = [sum(1 for y in ys if y // og == sp) for sp in range(case["splits"])]
+            if max(cnt) - min(cnt) > 1:
+                return f"class {c}: split sizes {cnt} are not balanced"
+        if any(len(v) > case["cps"] for v in sup.values()):
+            return f"a superclass received more than {case['cps']} classes: {sup}"
     if k == "overwrite" and items != case["classes"]:
         return f"overwritten classes {case['classes']} are not what the wrapper shows: {items}"
     if k == "semi":
